@@ -20,10 +20,18 @@ func init() { register("C11", c11) }
 func codecSelectors(p *core.Prog) []*ssa.Function {
 	var out []*ssa.Function
 	for _, fn := range p.LibFuncs("httpgrpc") {
-		if fn.Parent() != nil || fn.Signature.Recv() != nil || len(fn.Params) != 1 || fn.Signature.Results().Len() != 1 {
+		if fn.Parent() != nil || fn.Signature.Params().Len() != 1 || fn.Signature.Results().Len() != 1 {
 			continue
 		}
-		if core.TypeStr(fn.Params[0].Type()) == "string" && core.TypeStr(fn.Signature.Results().At(0).Type()) == "google.golang.org/grpc/encoding.Codec" {
+		// a plain function, or a method of a field-less type (a namespace such as `protocolV1 struct{}`): its
+		// receiver carries nothing the answer could depend on
+		if rv := fn.Signature.Recv(); rv != nil {
+			st, isSt := core.Deref(rv.Type()).Underlying().(*types.Struct)
+			if !isSt || st.NumFields() != 0 {
+				continue
+			}
+		}
+		if core.TypeStr(fn.Signature.Params().At(0).Type()) == "string" && core.TypeStr(fn.Signature.Results().At(0).Type()) == "google.golang.org/grpc/encoding.Codec" {
 			out = append(out, fn)
 		}
 	}
@@ -195,7 +203,7 @@ func c11(c *core.Ctx) {
 				c.Fail(key+":codec-selector", hc.Fn.Pos(), "no codec selection from the content type")
 			} else {
 				// argument: r.Header.Get("Content-Type")
-				okArg := core.OriginIs(selCall.Call.Args[0], func(o ssa.Value) bool {
+				okArg := core.OriginIs(selCall.Call.Args[len(selCall.Call.Args)-1], func(o ssa.Value) bool {
 					gc, _, ok := core.CallResult(o)
 					if !ok || !core.InfoOf(&gc.Call).Is("net/http.Header.Get") {
 						return false
@@ -438,7 +446,7 @@ func c11(c *core.Ctx) {
 				}
 				return false
 			}
-			okParse := parses(s, 0, 0)
+			okParse := parses(s, len(s.Params)-1, 0)
 			c.Check(okParse, core.FuncName(s)+":media-type-parsed", s.Pos(), "compares the parsed main media type (parameters ignored)", "the content type is not parsed with mime.ParseMediaType of the parameter")
 		}
 		// client constants
